@@ -133,6 +133,9 @@ def structure_objects():
     add("s-event-alarm", ev("s5", ["SUMMARY:with alarm", "BEGIN:VALARM", "ACTION:DISPLAY", "DESCRIPTION:ring", "TRIGGER:-PT15M", "END:VALARM"]))
     add("s-todo-open", ["BEGIN:VTODO", "UID:s6", "DTSTAMP:20200101T000000Z", "SUMMARY:Alpha beta", "STATUS:NEEDS-ACTION", "END:VTODO"])
     add("s-todo-done", ["BEGIN:VTODO", "UID:s7", "DTSTAMP:20200101T000000Z", "SUMMARY:done", "COMPLETED:20200311T090000Z", "STATUS:COMPLETED", "END:VTODO"])
+    # properties that are present but "falsy": empty text, integer zero
+    add("s-event-falsy", ev("s9", ["SUMMARY:", "LOCATION:", "PRIORITY:0", "SEQUENCE:0"]))
+    add("s-todo-zero", ["BEGIN:VTODO", "UID:s10", "DTSTAMP:20200101T000000Z", "SUMMARY:zero", "PERCENT-COMPLETE:0", "PRIORITY:0", "END:VTODO"])
     add("s-journal", ["BEGIN:VJOURNAL", "UID:s8", "DTSTAMP:20200101T000000Z", "DTSTART:20200310T100000Z", "SUMMARY:Alpha beta", "END:VJOURNAL"])
     return out
 
@@ -148,7 +151,7 @@ def structure_filters():
     for c in comps:
         out.append((R.comp("VCALENDAR", comps=[R.comp(c)]), "comp-defined"))
         out.append((R.comp("VCALENDAR", comps=[R.comp(c, not_defined=True)]), "comp-is-not-defined"))
-        for p in ("SUMMARY", "LOCATION", "COMPLETED", "ATTENDEE", "X-NONE"):
+        for p in ("SUMMARY", "LOCATION", "COMPLETED", "ATTENDEE", "X-NONE", "PRIORITY", "PERCENT-COMPLETE", "SEQUENCE"):
             out.append((R.comp("VCALENDAR", comps=[R.comp(c, props=[R.prop(p)])]), "prop-defined"))
             out.append((R.comp("VCALENDAR", comps=[R.comp(c, props=[R.prop(p, not_defined=True)])]), "prop-is-not-defined"))
         for (needle, pos) in NEEDLES:
